@@ -9,12 +9,13 @@ PRE = ('fax_l0', 'fmeth', 'stdspec', 'l1')
 BC = ('l0', 'l1_arith', 'l1_fun', 'ax_vec_from_refl', 'ax_f64_cloned')
 U = 'linalg::utils::'
 
-SPEC = c15.SPEC + r'''
+SYM_SPEC = r'''
 pub open spec fn sym_eps(m: Seq<f64>, n: int) -> bool {
     forall|i: int, j: int| 0 <= i <= j < n ==> r_abs(rv(#[trigger] at2(m, n, i, j)) - rv(at2(m, n, j, i))) <= r_eps()
 }
 pub open spec fn diag_pos(m: Seq<f64>, n: int) -> bool { forall|i: int| 0 <= i < n ==> rv(#[trigger] at2(m, n, i, i)) > 0real }
 '''
+SPEC = c15.SPEC + SYM_SPEC
 
 # is_square goes through `(len as f32).sqrt()`: outside the float levels -> assumed contract (tier A), spot-checked for len <= 2^20
 is_square = Fn(U + 'is_square', ret='r', level='A',
@@ -34,7 +35,7 @@ is_symmetric = Fn(U + 'is_symmetric', ret='r', level='L1', valid=SQV, panics={1:
                              'body_start': 'lemma_idx(i as int, j as int, n as int, n as int); lemma_idx(j as int, i as int, n as int, n as int);'}},
                   hints=[('return false;', 'before', 'proof { assert(!sym_eps(m@, n as int)) by { assert(r_abs(rv(at2(m@, n as int, i as int, j as int)) - rv(at2(m@, n as int, j as int, i as int))) > r_eps()); } lemma_sq_unique(n as int, m@.len() as int); }'),
                          ('\n            true\n', 'replace', '\n proof { lemma_sq_unique(n as int, m@.len() as int); }\n true\n')])
-SPEC += r'''
+SQ_UNIQUE = r'''
 pub proof fn lemma_sq_unique(n: int, len: int) requires 0 <= n, n * n == len
     ensures forall|k: int| 0 <= k && #[trigger] (k * k) == len ==> k == n
 {
@@ -44,6 +45,7 @@ pub proof fn lemma_sq_unique(n: int, len: int) requires 0 <= n, n * n == len
     }
 }
 '''
+SPEC += SQ_UNIQUE
 
 UNITS = [
     Unit('C01_predicates', ('C01', 'C11', 'C15'), [is_symmetric], use=[is_square], types=core.TYPES, type_spec=core.TYPE_SPEC, spec=SPEC, preludes=PRE, broadcast=BC, level='L1',
